@@ -435,6 +435,11 @@ func (g *rtGen) message(r *Rng, named bool) map[string]any {
 	if g.alertsOnly || g.nyctAlerts {
 		nAlerts = 1 + r.Intn(6)
 	}
+	if g.nyctTrips {
+		// the trips extension does not touch descriptors inside alerts: an alert naming an NYCT trip
+		// would introduce the un-rewritten descriptor as a second trip, outside C16's statement
+		nAlerts = 0
+	}
 	for i := 0; i < nAlerts; i++ {
 		id, a := g.alert(r, i, trips, base)
 		add(map[string]any{"id": bstr(id), "alert": a})
